@@ -206,7 +206,25 @@ class _Instr(ast.NodeTransformer):
         return node
 
 
-def trace_invariants(norm_text, fname, contract, witnesses):
+def many_ghosts(loc):
+    """Concrete values of the sidecar's ghost symbols for set_union_merge_many, from the locals of a real run."""
+    va = loc.get("value_arrays")
+    if va is None:
+        return {}
+    lens = [len(a) for a in va]
+    cs = [0]
+    for x in lens:
+        cs.append(cs[-1] + x)
+    K = len(va)
+    CS = lambda a: cs[a] if 0 <= a <= K else cs[-1] + (a - K)  # noqa
+    return {
+        "K": K, "L": lambda a: lens[a], "CS": CS, "E": lambda a, i: int(va[a][i]),
+        "psum": lambda P, j: sum(int(P[a]) - CS(a) for a in range(j)),
+        "seg_ok": lambda P: all(CS(a) <= int(P[a]) <= CS(a + 1) for a in range(K)),
+    }
+
+
+def trace_invariants(norm_text, fname, contract, witnesses, ghosts=None):
     """Execute the normalised source of `fname` on each witness; check invariants at loop heads.
     Returns dict(evaluations=, failures=[...], unhit=[...], results=[...])."""
     import numpy
@@ -234,6 +252,8 @@ def trace_invariants(norm_text, fname, contract, witnesses):
                 env[name] = [int(x) for x in v.tolist()]
             elif isinstance(v, (int, numpy.integer)):
                 env[name] = int(v)
+        if ghosts is not None:
+            env.update(ghosts(loc))
         inv = contract["loops"][k]
         for cl in ([inv] if isinstance(inv, str) else inv):
             for part in conjuncts(cl, macros):
@@ -255,7 +275,8 @@ def trace_invariants(norm_text, fname, contract, witnesses):
     old = numpy.seterr(over="ignore")
     try:
         for args in witnesses:
-            conv = [numpy.array(a, dtype=numpy.uint32) for a in args]
+            conv = [([numpy.array(x, dtype=numpy.uint32) for x in a] if (a and isinstance(a[0], list)) or (ghosts is not None)
+                     else numpy.array(a, dtype=numpy.uint32)) for a in args]
             try:
                 r = f(*conv)
             except Exception as e:  # the normalised source run by CPython raised (e.g. IndexError)
